@@ -18,3 +18,9 @@ package simhook
 
 // Yield does nothing in a normal build.
 func Yield(string) {}
+
+// Held does nothing in a normal build.
+func Held(int) {}
+
+// HeldFn returns f in a normal build.
+func HeldFn(f func()) func() { return f }
